@@ -17,6 +17,7 @@ let () =
     | "c16" -> C16.model_line, Some C16.judge_line
     | "qword" -> C15.model_line, None
     | "rword" -> C15.rword_line, None
+    | "pexp" -> C15.pexp_line, None
     | "hdoc" -> C15.hdoc_line, None
     | "gap" -> Gap.model_line, None
     | "hdp" -> Hdp.model_line, Some Hdp.judge_line
